@@ -4,7 +4,6 @@ import (
 	"context"
 )
 
-func verif_go(name string, f func())                                               { panic("intrinsic") }
 func verif_quiesce()                                                               { panic("intrinsic") }
 func verif_cancelCtx(parent context.Context) (context.Context, context.CancelFunc) { panic("intrinsic") }
 func verif_parkedCount() int                                                       { panic("intrinsic") }
